@@ -65,6 +65,13 @@ KINDS = {
     "multi_selector": lambda: Item("multi_selector", [("color", "#777", False)], selector_fmt=".r%d, .x%d > p:hover"),
     "var_bg_and_text": lambda: Item("var_bg_and_text", [("color", "var(--t)", False), ("background-color", "var(--bg)", False)], needs=("--t", "--bg")),
     "prop_important": lambda: Item("prop_important", [("color", "var(--ti)", False)], needs=("--ti",)),
+    # rare but valid tokens inside a rule the tool rewrites: blank-then-semicolon inside strings, comments and quoted urls, escapes
+    "rare_tokens": lambda: Item("rare_tokens", [("content", '" ; "', False), "/* keep ; here */",
+                                                ("background-image", 'url("data:image/svg+xml ;utf8,<svg/>")', False),
+                                                ("color", "#777", False), ("font-family", '"A \\"B\\" ;", serif', False),
+                                                ("unicode-range", "U+0025-00FF, u+4??", False), ("margin", "0 ! important", False)]),
+    "var_root_strings": lambda: Item("var_root_strings", [("color", "var(--t)", False)], needs=("--t",),
+                                     extra_blocks=(':root {\n  --sep: "a ;b"; /* x ; y */\n  --w: " ;";\n}\n',)),
     # the same selector in two rules (a base rule and an override): cards and counts must still tell them apart
     "dup_light": lambda: Item("dup_light", [("color", "#888", False), ("background-color", "#fff", False)], selector_fmt=".dup"),
     "dup_dark": lambda: Item("dup_dark", [("color", "#777", False), ("background-color", "#222", False)], selector_fmt=".dup"),
